@@ -44,6 +44,10 @@ def check_split(repo: Repo, rep):
     for rank in weak_orderings(["o", "c", "h", "l", "p"], cons):
         n += 1
         samples = embeddings(rank, 2)
+        # ... and the same ordering with all levels within 0.01 % of each other (prices a tick apart): a comparison that is exact in the
+        # ordinal world must stay exact there - "near the open" is not "at the open"
+        levels = sorted(set(samples[0].values()))
+        samples.append({k: Fraction(100) + Fraction(levels.index(v), 1000) for k, v in samples[0].items()})
         for s in samples:
             s.update({"ts": Fraction(1000), "v": Fraction(5)})
         desc = describe(rank)
